@@ -215,8 +215,135 @@ template <typename T> static void finish(std::ostream& os, T* arr, const Paths<T
   os << ' ' << tagA << ' '; pr_raw(os, arr); os << ' ' << tagN << ' '; pr(os, nat);
 }
 
+#ifdef USINGZ
+// ---------------------------------------------------------------- Z callbacks (USINGZ builds only): command ZH
+// The export layer keeps the registered callbacks in two header-level globals (dllCallback64 / dllCallbackD) that
+// all four boolean exports read; SetZCallback64 / SetZCallbackD are the only documented way to change them.
+// ZH runs a *history* of `set` and `call` steps through the exported functions and, for every call, the native API
+// on a fresh Clipper64 / ClipperD(precision) with the callback that the history says is registered at that moment
+// (SetZCallback(cb); none when the last set was a null pointer or there was none).  The callbacks are plain C
+// functions that log every invocation (count + a hash over the bits of all five points, z included), so that not
+// only the resulting z but also the sequence of callback invocations and their arguments is compared.
+//   mode 1 TAG   pt.z = fresh value (counter started at `base`)
+//   mode 2 HASH  pt.z = an arbitrary value (hash of everything the callbacks were given so far, xor `salt`)
+//   mode 3 KEEP  pt.z left as the library passed it
+struct CbState { uint64_t calls, hash; int64_t next; uint64_t salt; };
+static CbState g_cb = {0, 0, 0, 0};
+static void cb_reset(int64_t base, uint64_t salt) { g_cb.calls = 0; g_cb.hash = 0x243F6A8885A308D3ULL; g_cb.next = base; g_cb.salt = salt; }
+static void cb_mix(uint64_t v) { uint64_t h = g_cb.hash ^ v; h *= 0x9E3779B97F4A7C15ULL; h ^= h >> 29; g_cb.hash = h + 0x632BE59BD9B4E019ULL; }
+static uint64_t cbits(int64_t v) { return (uint64_t)v; }
+static uint64_t cbits(double v) { return bits_of(v); }
+template <typename T> static void cb_log(const Point<T>& a, const Point<T>& b, const Point<T>& c, const Point<T>& d, const Point<T>& pt) {
+  ++g_cb.calls;
+  const Point<T>* ps[5] = {&a, &b, &c, &d, &pt};
+  for (const Point<T>* p : ps) { cb_mix(cbits(p->x)); cb_mix(cbits(p->y)); cb_mix((uint64_t)p->z); }
+}
+static void cb64_tag(const Point64& a, const Point64& b, const Point64& c, const Point64& d, Point64& pt) { cb_log(a, b, c, d, pt); pt.z = g_cb.next++; }
+static void cb64_hash(const Point64& a, const Point64& b, const Point64& c, const Point64& d, Point64& pt) { cb_log(a, b, c, d, pt); pt.z = (int64_t)(g_cb.hash ^ g_cb.salt); }
+static void cb64_keep(const Point64& a, const Point64& b, const Point64& c, const Point64& d, Point64& pt) { cb_log(a, b, c, d, pt); }
+static void cbD_tag(const PointD& a, const PointD& b, const PointD& c, const PointD& d, PointD& pt) { cb_log(a, b, c, d, pt); pt.z = g_cb.next++; }
+static void cbD_hash(const PointD& a, const PointD& b, const PointD& c, const PointD& d, PointD& pt) { cb_log(a, b, c, d, pt); pt.z = (int64_t)(g_cb.hash ^ g_cb.salt); }
+static void cbD_keep(const PointD& a, const PointD& b, const PointD& c, const PointD& d, PointD& pt) { cb_log(a, b, c, d, pt); }
+static DLLZCallback64 CB64[4] = {nullptr, cb64_tag, cb64_hash, cb64_keep};
+static DLLZCallbackD CBD[4] = {nullptr, cbD_tag, cbD_hash, cbD_keep};
+
+// one `call` step on the int64 side: export, then native with the callback `want` (null = none registered)
+static void zh_call64(std::ostream& os, bool tree, int ct, int fr, bool pc, bool rs, int nulls,
+                      const Paths64& sub, const Paths64& subo, const Paths64& clp, DLLZCallback64 want, int64_t base, uint64_t salt) {
+  U64 ua(h_enc_paths(sub, nulls & 1)), ub(h_enc_paths(subo, nulls & 2)), uc(h_enc_paths(clp, nulls & 4));
+  int64_t* s1 = SENT64; int64_t* s2 = SENT64;
+  cb_reset(base, salt);
+  int rc = !tree ? BooleanOp64((uint8_t)ct, (uint8_t)fr, ua.get(), ub.get(), uc.get(), s1, s2, pc, rs)
+                 : BooleanOp_PolyTree64((uint8_t)ct, (uint8_t)fr, ua.get(), ub.get(), uc.get(), s1, s2, pc, rs);
+  CbState ex = g_cb;
+  os << " RC " << rc;
+  if (rc != 0) { os << " UNTOUCHED " << (s1 == SENT64 && s2 == SENT64); return; }
+  cb_reset(base, salt);
+  Clipper64 cl; cl.PreserveCollinear(pc); cl.ReverseSolution(rs);
+  if (want) cl.SetZCallback(want);
+  cl.AddSubject(sub); cl.AddOpenSubject(subo); cl.AddClip(clp);
+  Paths64 nopen; bool ok, cmp;
+  if (!tree) {
+    Paths64 nsol; ok = cl.Execute(ClipType(ct), FillRule(fr), nsol, nopen);
+    os << " CB " << ex.calls << ' ' << ex.hash << ' ' << g_cb.calls << ' ' << g_cb.hash;
+    finish(os, s1, nsol, "A1", "N1"); cmp = agrees(s1, nsol);
+  } else {
+    PolyTree64 nt; ok = cl.Execute(ClipType(ct), FillRule(fr), nt, nopen);
+    os << " CB " << ex.calls << ' ' << ex.hash << ' ' << g_cb.calls << ' ' << g_cb.hash;
+    os << " A1 "; pr_raw(os, s1); os << " NT "; pr_tree<PolyPath64, int64_t>(os, nt); cmp = tree_agrees<PolyPath64, int64_t>(s1, nt);
+  }
+  finish(os, s2, nopen, "A2", "N2"); cmp = cmp && agrees(s2, nopen) && ok;
+  os << " CMP " << cmp;
+  DisposeArray64(s1); DisposeArray64(s2);
+}
+static void zh_callD(std::ostream& os, bool tree, int ct, int fr, int prec, bool pc, bool rs, int nulls,
+                     const PathsD& sub, const PathsD& subo, const PathsD& clp, DLLZCallbackD want, int64_t base, uint64_t salt) {
+  UD ua(h_enc_paths(sub, nulls & 1)), ub(h_enc_paths(subo, nulls & 2)), uc(h_enc_paths(clp, nulls & 4));
+  double* s1 = SENTD; double* s2 = SENTD;
+  cb_reset(base, salt);
+  int rc = !tree ? BooleanOpD((uint8_t)ct, (uint8_t)fr, ua.get(), ub.get(), uc.get(), s1, s2, prec, pc, rs)
+                 : BooleanOp_PolyTreeD((uint8_t)ct, (uint8_t)fr, ua.get(), ub.get(), uc.get(), s1, s2, prec, pc, rs);
+  CbState ex = g_cb;
+  os << " RC " << rc;
+  if (rc != 0) { os << " UNTOUCHED " << (s1 == SENTD && s2 == SENTD); return; }
+  cb_reset(base, salt);
+  ClipperD cl(prec); cl.PreserveCollinear(pc); cl.ReverseSolution(rs);
+  if (want) cl.SetZCallback(want);
+  cl.AddSubject(sub); cl.AddOpenSubject(subo); cl.AddClip(clp);
+  PathsD nopen; bool ok, cmp;
+  if (!tree) {
+    PathsD nsol; ok = cl.Execute(ClipType(ct), FillRule(fr), nsol, nopen);
+    os << " CB " << ex.calls << ' ' << ex.hash << ' ' << g_cb.calls << ' ' << g_cb.hash;
+    finish(os, s1, nsol, "A1", "N1"); cmp = agrees(s1, nsol);
+  } else {
+    PolyTreeD nt; ok = cl.Execute(ClipType(ct), FillRule(fr), nt, nopen);
+    os << " CB " << ex.calls << ' ' << ex.hash << ' ' << g_cb.calls << ' ' << g_cb.hash;
+    os << " A1 "; pr_raw(os, s1); os << " NT "; pr_tree<PolyPathD, double>(os, nt); cmp = tree_agrees<PolyPathD, double>(s1, nt);
+  }
+  finish(os, s2, nopen, "A2", "N2"); cmp = cmp && agrees(s2, nopen) && ok;
+  os << " CMP " << cmp;
+  DisposeArrayD(s1); DisposeArrayD(s2);
+}
+static PathsD zh_to_d(const Paths64& ps, double dv) {
+  PathsD r; r.reserve(ps.size());
+  for (auto& p : ps) { PathD q; q.reserve(p.size()); for (auto& v : p) q.push_back(PointD((double)v.x / dv, (double)v.y / dv, v.z)); r.push_back(std::move(q)); }
+  return r;
+}
+// ZH ct fr prec pc rs nulls dvbits nsteps {setop fn base salt}*nsteps <ps64 subj> <ps64 subj_open> <ps64 clip>
+//   setop 0: leave the registration alone; 1..4: SetZCallback64(null / TAG / HASH / KEEP); 5..8: SetZCallbackD(likewise)
+//   fn    0 BooleanOp64  1 BooleanOp_PolyTree64  2 BooleanOpD  3 BooleanOp_PolyTreeD   (D inputs: x / dv, y / dv, same z)
+// output: one section per step, sections separated by ` | `:
+//   STEP fn ST <dllCallback64 set?> <dllCallbackD set?> <expected 64> <expected D> RC .. CB <export calls, hash> <native calls, hash> A1 .. CMP ..
+static void zh(Toks& t, std::ostream& os) {
+  int ct = t.i32(), fr = t.i32(), prec = t.i32(); bool pc = t.b(), rs = t.b(); int nulls = t.i32();
+  double dv = dbl_of(t.u64()); int nsteps = t.i32();
+  struct Step { int setop, fn; int64_t base; uint64_t salt; };
+  std::vector<Step> steps;
+  for (int i = 0; i < nsteps; ++i) { Step s; s.setop = t.i32(); s.fn = t.i32(); s.base = t.i64(); s.salt = t.u64(); steps.push_back(s); }
+  Paths64 sub = rd_ps64(t), subo = rd_ps64(t), clp = rd_ps64(t);
+  PathsD subD = zh_to_d(sub, dv), suboD = zh_to_d(subo, dv), clpD = zh_to_d(clp, dv);
+  DLLZCallback64 want64 = nullptr; DLLZCallbackD wantD = nullptr;   // the history's view of the two registrations
+  for (int i = 0; i < nsteps; ++i) {
+    const Step& s = steps[i];
+    if (s.setop < 0 || s.setop > 8 || s.fn < 0 || s.fn > 3) { os << "ERR bad step"; return; }
+    if (s.setop >= 1 && s.setop <= 4) { want64 = CB64[s.setop - 1]; SetZCallback64(want64); }
+    if (s.setop >= 5) { wantD = CBD[s.setop - 5]; SetZCallbackD(wantD); }
+    if (i) os << " | ";
+    os << "STEP " << s.fn << " ST " << (bool)dllCallback64 << ' ' << (bool)dllCallbackD << ' ' << (want64 != nullptr) << ' ' << (wantD != nullptr);
+    if (s.fn < 2) zh_call64(os, s.fn == 1, ct, fr, pc, rs, nulls, sub, subo, clp, want64, s.base, s.salt);
+    else zh_callD(os, s.fn == 3, ct, fr, prec, pc, rs, nulls, subD, suboD, clpD, wantD, s.base, s.salt);
+  }
+}
+#endif
+
 static void handle(Toks& t, std::ostream& os) {
   const std::string cmd = t.next();
+#ifdef USINGZ
+  // every input line starts from the state of a freshly loaded library (no callback registered), whatever line the
+  // same process handled before: assigned directly, not through the setters under test
+  dllCallback64 = nullptr; dllCallbackD = nullptr;
+  if (cmd == "ZH") { try { zh(t, os); } catch (...) { dllCallback64 = nullptr; dllCallbackD = nullptr; throw; } return; }
+#endif
   // ------------------------------------------------------------ marshalling kernels, called directly
   if (cmd == "DIM") { os << D; return; }
   if (cmd == "KE") { g_keep_empty = true; try { handle(t, os); } catch (...) { g_keep_empty = false; throw; } g_keep_empty = false; return; }
